@@ -296,6 +296,11 @@ impl Callable for If {
 struct ScopeBinding {
     ctx: ScriptContextRef,
     value: Value,
+    // A binding lives for one pass of the checker or the evaluator over its `let`, and the bound expression
+    // is looked at in the scope of that `let` only: type and value are computed once. Computing them again
+    // for every use made the work of nested lets the product of the numbers of uses per level.
+    type_cache: std::sync::OnceLock<Result<Type, String>>,
+    value_cache: std::sync::OnceLock<Result<Value, String>>,
 }
 
 impl std::fmt::Debug for ScopeBinding {
@@ -316,11 +321,26 @@ impl std::hash::Hash for ScopeBinding {
 
 impl Evaluatable for ScopeBinding {
     fn type_of(&self, _ctx: ScriptContextRef) -> Result<Type, Error> {
-        self.value.type_of(self.ctx.clone())
+        self.type_cache
+            .get_or_init(|| {
+                self.value
+                    .type_of(self.ctx.clone())
+                    .map_err(|e| e.to_string())
+            })
+            .clone()
+            .map_err(err_msg)
     }
 
     fn value_of(&self, ctx: ScriptContextRef) -> Result<Value, Error> {
-        self.value.value_of(self.ctx.clone())?.value_of(ctx)
+        self.value_cache
+            .get_or_init(|| {
+                self.value
+                    .value_of(self.ctx.clone())
+                    .map_err(|e| e.to_string())
+            })
+            .clone()
+            .map_err(err_msg)?
+            .value_of(ctx)
     }
 }
 
@@ -341,6 +361,8 @@ impl Scope {
             let value = ScopeBinding {
                 ctx: ctx.clone(),
                 value,
+                type_cache: Default::default(),
+                value_cache: Default::default(),
             };
             nctx.set(id, value.into());
         }
